@@ -105,6 +105,37 @@ def _copy_tree(dst, repo=REPO):
                     pass
 
 
+ISA_MACROS = {"__FMA4__": "fma4", "__XOP__": "xop", "__TBM__": "tbm", "__AVX512F__": "avx512f", "__AVX512VL__": "avx512vl",
+              "__AVX512BW__": "avx512bw", "__AVX512DQ__": "avx512dq", "__AVX512CD__": "avx512cd", "__AVX2__": "avx2", "__AVX__": "avx",
+              "__BMI__": "bmi1", "__BMI2__": "bmi2", "__FMA__": "fma", "__F16C__": "f16c", "__LZCNT__": "abm", "__POPCNT__": "popcnt",
+              "__MOVBE__": "movbe", "__SSE4_1__": "sse4_1", "__SSE4_2__": "sse4_2", "__SSSE3__": "ssse3", "__SSE3__": "pni"}
+
+
+def _makefile_cflags(tree):
+    for l in open(os.path.join(tree, "Makefile")):
+        if l.startswith("CFLAGS ="):
+            return l.split("=", 1)[1].strip()
+    return ""
+
+
+def _host_lacks(cflags):
+    """ISA extensions the compiler may use implicitly under these CFLAGS and /proc/cpuinfo does not list"""
+    march = [w for w in cflags.split() if w.startswith("-march=")]
+    if not march:
+        return []
+    try:
+        r = subprocess.run(["gcc"] + march + ["-dM", "-E", "-x", "c", "/dev/null"], capture_output=True, text=True)
+        macros = {l.split()[1] for l in r.stdout.splitlines() if l.startswith("#define ")}
+        flags = set()
+        for l in open("/proc/cpuinfo"):
+            if l.startswith("flags"):
+                flags = set(l.split(":", 1)[1].split())
+                break
+    except Exception:
+        return []
+    return sorted(f for m, f in ISA_MACROS.items() if m in macros and f not in flags)
+
+
 def _run(cmd, cwd, env, log):
     with open(log, "ab") as lf:
         lf.write(("\n$ %s\n" % " ".join(cmd)).encode())
@@ -153,9 +184,21 @@ def get(variant, repo=REPO, quiet=False, keep_tree=False):
                 print("[build] %s from %s (tree %s) ..." % (variant, repo, th), file=sys.stderr, flush=True)
             if _run(["./configure"] + cargs, scratch, env, log) != 0:
                 raise RuntimeError("configure failed for variant %s, see %s/last-fail-%s.log" % (variant, CACHE, variant))
+            cflags_note = None
+            if variant.startswith("cpu-") and cflags is None:
+                # configure picks -march=<that cpu>; if the compiler may then emit instructions this host cannot execute
+                # (e.g. FMA4/XOP/TBM for bulldozer/piledriver on an Intel host) the C code is compiled without -march/-mtune:
+                # the per-CPU assembly path and gmp-mparam.h -- the thing the variant exists for -- stay selected.
+                missing = _host_lacks(_makefile_cflags(scratch))
+                if missing:
+                    base = " ".join(w for w in _makefile_cflags(scratch).split() if not w.startswith(("-march=", "-mtune=", "-mcpu=")))
+                    env["CFLAGS"] = base
+                    cflags_note = "configure default CFLAGS need %s which this host lacks; C code built with '%s', assembly path unchanged" % (",".join(missing), base)
+                    if _run(["./configure"] + cargs, scratch, env, log) != 0:
+                        raise RuntimeError("configure failed for variant %s, see %s/last-fail-%s.log" % (variant, CACHE, variant))
             if _run(["make", "-j16"], scratch, env, log) != 0:
                 raise RuntimeError("make failed for variant %s, see %s/last-fail-%s.log" % (variant, CACHE, variant))
-            out = {"variant": variant, "tree": th, "dir": ent, "built_s": None}
+            out = {"variant": variant, "tree": th, "dir": ent, "built_s": None, "cflags_note": cflags_note}
             libs = os.path.join(scratch, ".libs")
             for f in os.listdir(libs):
                 p = os.path.join(libs, f)
